@@ -468,3 +468,42 @@ def h_retry_rehandshake(c, same_hello):
 
 
 h_retry_rehandshake.must_cover = ["returned"]
+
+
+@harness(["C02", "C17"], "quic.packet_frames_end_to_end", functions=[QS + ".decrypt_packet", QS + ".handle_frame", QF + ".parse_frames", QF + ".NewConnectionIdFrame.__init__",
+                                                                     QF + ".StreamFrame.__init__"], cases=[(True,), (False,)], timeout=20000,
+         inline=[QF + ".NewConnectionIdFrame.__init__", QF + ".StreamFrame.__init__", QF + ".Frame.__init__", QF + ".parse_frames"])
+def h_frames_end_to_end(c, isserver):
+    """COMPOSITION across parse_frames, the frame constructors and handle_frame, all from their real bodies: a 1-RTT packet whose
+    plaintext is NEW_CONNECTION_ID followed by STREAM (the typical first server flight) - the connection ID is registered for its
+    sender AND the stream data behind it is exported.  (Per-function contracts fix the VALUES of the parsed fields; whether those
+    values can be used the way the session uses them - hashed into the set of connection IDs - is a property of the composition.)"""
+    if c.native:
+        return
+    from contracts.quic_varint import enc_varint
+    cid = c.bytes("new_connection_id", min_len=1, max_len=20)
+    token = c.bytes("stateless_reset_token", length=16)
+    seqno, retire = c.int("sequence_number", 0, 63), c.int("retire_prior_to", 0, 63)
+    sid, off = c.int("stream_id", 0, 63), c.int("stream_offset", 0, 63)
+    data = c.bytes("stream_data", min_len=1, max_len=63)
+    ncid = cat(const(b"\x18"), enc_varint(c, "seq", seqno, 1), enc_varint(c, "retire", retire, 1), c.bytes_of([len_(cid)]), cid, token)
+    stream = cat(const(b"\x0e"), enc_varint(c, "sid", sid, 1), enc_varint(c, "off", off, 1), enc_varint(c, "len", len_(data), 1), data)
+    plain = cat(ncid, stream)
+    dec = c.recorder("decryptor", handler=lambda m, a, k: plain)
+    pkt = c.obj(QP + ".ShortQuicPacket", packet_type=c.enum(PT, "RTT_1"), isserver=isserver, first_byte=c.bytes("fb", length=1), dcid=c.bytes("dcid", max_len=20),
+                packet_num=c.bytes("pn", min_len=1, max_len=4), payload=c.bytes("payload"), key_phase=0, ts=1.0)
+    c.summary_override(QS + ".get_full_packet_number", lambda ctx, slf, p: c.bytes_fresh("full_pn", 8, 8))
+    c.summary_override(QS + ".check_key_epoch", lambda ctx, slf, kp, srv: None)
+    s = full_qsession(c, decryptors={"Application": [dec]}, epoch_server=0, epoch_client=0, output_buffer=[], server_cids=c.new_set_of([]), client_cids=c.new_set_of([]))
+    out = c.method(s, "decrypt_packet", pkt)
+    c.ensure("no_raise", out.exc is None, kind="raises")
+    if out.exc is not None:
+        return
+    ob = c.get(s, "output_buffer")
+    c.ensure("stream_data_behind_the_connection_id_frame_is_exported", len(ob) == 1 and c.has(ob[0], "stream_data") and c.prove(eq(c.get(ob[0], "stream_data"), data)))
+    mine, other = (c.get(s, "server_cids"), c.get(s, "client_cids")) if isserver else (c.get(s, "client_cids"), c.get(s, "server_cids"))
+    c.ensure("connection_id_registered_for_its_sender", len(mine.items) == 1 and c.prove(eq(mine.items[0], cid)) and len(other.items) == 0)
+    c.cover("returned")
+
+
+h_frames_end_to_end.must_cover = ["returned"]
